@@ -139,6 +139,7 @@ func init() {
 		Run: func(c *core.Ctx, r *core.Report) {
 			E11MagnitudeTestOnAbs(c, r)
 			E4SliceLengthGuarded(c, r)
+			E11EmptyCloseKeepsPosition(c, r)
 			E8Units(c, r)
 			E11RelativeBeforeUse(c, r)
 			E11ImplicitCommand(c, r)
@@ -406,6 +407,7 @@ func init() {
 			E11EmptyValueAccepted(c, r)
 			E11ViewBoxSeparators(c, r)
 			E11ViewBoxInOneMatrix(c, r)
+			E11EmptyCloseKeepsPosition(c, r)
 			E11HexDigitPairs(c, r)
 			E11SVGVocabulary(c, r)
 			E11WordListMatch(c, r)
